@@ -367,6 +367,15 @@ func (b *Broker) handleConn(conn net.Conn) {
 	}
 	b.clients[client.info.cid] = client
 	b.setSession(client, connect)
+	// subscribe the topics of a resumed session before the lock is released, so that
+	// a later connection with the same client id cannot get in between.
+	topics, qoss, _ := client.session.allSubscribes()
+	if len(topics) > 0 {
+		err = b.topicMgr.subscribe(topics, qoss, client.info.cid)
+		if err != nil {
+			logger.SpanErrorf(nil, "client %v use previous session topics %v to subscribe failed: %v", client.info.cid, topics, err)
+		}
+	}
 	b.Unlock()
 
 	err = connack.Write(conn)
@@ -376,13 +385,6 @@ func (b *Broker) handleConn(conn net.Conn) {
 	}
 
 	client.session.updateEGName(b.egName, b.name)
-	topics, qoss, _ := client.session.allSubscribes()
-	if len(topics) > 0 {
-		err = b.topicMgr.subscribe(topics, qoss, client.info.cid)
-		if err != nil {
-			logger.SpanErrorf(nil, "client %v use previous session topics %v to subscribe failed: %v", client.info.cid, topics, err)
-		}
-	}
 	go client.writeLoop()
 	client.readLoop()
 }
@@ -396,9 +398,24 @@ func (b *Broker) setSession(client *Client, connect *packets.ConnectPacket) {
 	} else {
 		if prevSess != nil {
 			prevSess.close()
+			// the previous session is discarded: its subscriptions must not be
+			// routed to the new connection.
+			topics, _, _ := prevSess.allSubscribes()
+			b.topicMgr.unsubscribe(topics, connect.ClientIdentifier)
 		}
 		client.session = b.sessMgr.newSessionFromConn(connect)
 	}
+}
+
+// ownsSession tells whether the session stored under c's client id is still c's own:
+// c is the registered connection, or no connection is registered and the session in
+// the session manager is the one c uses. Caller must hold the broker lock.
+func (b *Broker) ownsSession(c *Client) bool {
+	if cur, ok := b.clients[c.info.cid]; ok {
+		return cur == c
+	}
+	sess, ok := b.sessMgr.sessionMap.Load(c.info.cid)
+	return ok && sess.(*Session) == c.session
 }
 
 func (b *Broker) requestTransfer(span *model.SpanContext, egName, name string, data HTTPJsonData, header http.Header) {
